@@ -25,7 +25,9 @@ def collect(ctx):
             if rng.random() < 0.5:
                 p = rng.choice(drv_error.small_params(kind))
             nthr = p.get("n_threshold", p.get("window_size", 5))
-            ts.append(L.from_error(kind, drv_error.run(kind, p, burst_errors(rng, 400, nthr))))
+            # half of the histories with the caller's own reset() every few dozen samples - some of them fall into warning zones, some right after a drift
+            rs = tuple(range(rng.randint(11, 40), 400, rng.choice([29, 37, 53]))) if rng.random() < 0.5 else ()
+            ts.append(L.from_error(kind, drv_error.run(kind, p, burst_errors(rng, 400, nthr), resets=rs)))
     for i in range(30 * k):
         p = drv_adwin.params(rng, small=rng.random() < 0.5)
         if i % 3 == 2:      # a large minimum window with frequent checks: after a cut the window is below the minimum for a long stretch
